@@ -954,7 +954,7 @@ fn run_systems(phase: &Phase, sink: &mut Sink) {
     let sp = Space::new(&phase.param);
     let step = sink.nshards.max(1);
     let mut idx = match sink.mode {
-        Mode::Describe(i) => i,
+        Mode::Describe(i) | Mode::Only(i) => i,
         Mode::Run => {
             // Index-addressable space: jump straight to this shard's first case >= from.
             let from = sink.from;
@@ -975,7 +975,7 @@ fn run_systems(phase: &Phase, sink: &mut Sink) {
             break;
         }
         let sys = sp.system(idx);
-        if sp.sym && !matches!(sink.mode, Mode::Describe(_)) && !sp.canonical(&sys) {
+        if sp.sym && sink.single().is_none() && !sp.canonical(&sys) {
             skipped += 1;
             idx += step;
             continue;
@@ -1006,7 +1006,7 @@ fn run_systems(phase: &Phase, sink: &mut Sink) {
                 outcome_of(c, Value::Null)
             },
         );
-        if let Mode::Describe(_) = sink.mode {
+        if sink.single().is_some() {
             break;
         }
         idx += step;
